@@ -48,6 +48,11 @@ CHECKS = {
    "round-trip and differential property testing (independent HDLC framer; checksum-on output vs CRC-filtered checksum-off output; exhaustive single-bit flips)",
    "Generated transmissions built by an independent framer (bitwise CRC-16/X.25, stuffing, shared/separate flags, flag-free noise preamble) must be deframed to exactly the in-bounds payloads under any drip schedule; for arbitrary bit streams (flips, noise) the frames delivered with checksum on must be exactly the CRC-verified subset of those delivered with checksum off, and with fix-bits each delivery must be a verified frame or a single-bit repair; every single-flip position of three base transmissions is enumerated.",
    "max_size inclusive; zero-length deliveries between adjacent flags ignored; no subset-of-payload claim for corrupted input", "DESIGN.md §5 C13"),
+
+ "C18": ("E1 ring model + E6 OS fault harness", "exploration",
+   "stateful property testing against /proc observations; fault injection in child processes (RLIMIT_AS, map-count exhaustion)",
+   "Generated create/use/drop histories of up to 200 buffers over 1-8 threads must return the count of deleted-file mappings and of descriptors to the baseline; the mapping layout and byte-for-byte aliasing of the halves is checked for every offset; the set-up table (element kinds x valid/invalid sizes) is enumerated; mapping failures injected in child processes must surface as Err without leaks.",
+   "only stream-attributable /proc entries are counted; single-threaded check; injected faults are ENOMEM from RLIMIT_AS and vm.max_map_count", "DESIGN.md §5 C18"),
 }
 
 NOT_YET = {}
